@@ -105,6 +105,7 @@ func runC15(c *Ctx) {
 		b := r.Build()
 		defer runtime.KeepAlive(b)
 		nb := newNb(b.M)
+		guard := readOnlyGuard("neighbour query", b.B, b.M)
 		targets := tks
 		if extraTargets {
 			targets = append(append([]uint32(nil), tks...), argPoints(b.M)...)
@@ -132,7 +133,7 @@ func runC15(c *Ctx) {
 			}
 			atomic.AddInt64(&evals, 4)
 		}
-		return fmt.Sprint(hist), nil
+		return fmt.Sprint(hist), guard()
 	}
 	p1 := &explore.Product{Name: "chunk-shape closure x targets", Dims: []int{len(pool)}, Deadline: c.Budget(70, 1200),
 		Run:      func(idx []int) (string, *ev.Fail) { return check(pool[idx[0]], false) },
